@@ -188,7 +188,7 @@ def check(run):
         msrcs = matrixgen.sources(run, "c07", subset="generic")
         mroot, mpaths = semrun.write_programs("c07mx2", msrcs)
         mres = vlib.run_harness("compile", [{"path": p_, "dumps": ["mono_dbg", "go_dbg"], "timeout_ms": 20000} for p_ in mpaths], shards=vlib.NCPU)
-        generic_names = re.compile(r"(^|#)(gid|gsome|gor|gpair|gtwo|gh\d+|tagm|pickm)$")
+        generic_names = re.compile(r"(^|#)(gid|gsome|gor|gpair|gtwo|gnone|gvnew|gh\d+|tagm|pickm)$")
         gw_texts, gw_ix = [], []
         for src_, r in zip(msrcs, mres):
             if not r.get("ok"):
